@@ -51,7 +51,7 @@ VProj(r) ==
 VProjs(r) ==
   IF r.err # "" THEN "C31:ad_projectors-unavailable:" \o r.err
   ELSE IF \E k \in 1..Len(r.mats) : ~IsRatMat(r.mats[k], N, N) THEN "C31:not-exact"
-  ELSE LET refs == [l \in SectorLabels(r.qed) |-> SectorMapRef(l, r.nf, r.qed)]
+  ELSE LET refs == TLCEval([l \in SectorLabels(r.qed) |-> SectorMapRef(l, r.nf, r.qed)])
        IN IF Len(r.mats) # Cardinality(SectorLabels(r.qed)) THEN "C31:ad_projectors-count"
           ELSE IF \E l \in SectorLabels(r.qed) : \A k \in 1..Len(r.mats) : r.mats[k] # refs[l]
                THEN "C31:ad_projectors-sector-missing"
